@@ -174,12 +174,14 @@ inline Scene gp_scene(Rng& r, GpCounters& gc, int magexp, int shape = -1, int ma
     if (!inrange) { ++gc.rejected; continue; }
     // anisotropic ("squashed") scenes: stretch x by a large factor so that most edges are nearly horizontal
     // (|dx/dy| > 100 reaches the flat-edge repair branches of the sweep that isotropic scenes never execute)
-    if (magexp >= 20 && r.chance(0.12)) {
+    if (r.chance(0.12)) {
       static const int64_t ks[] = { 30, 200, 1500, 20000 };
       int64_t k = ks[r.irange(0, 3)];
       int64_t mx = max_abs_coord(concat(sc.subj, sc.clip));
-      if (mx > 0 && mx <= Mmax / k) { for (auto* pp : { &sc.subj, &sc.clip }) for (auto& p : *pp) for (auto& pt : p) pt.x *= k; sc.squash = (int)k; }
-      else { // no room to stretch: squeeze y instead (keeps the magnitude)
+      // small scenes may be stretched beyond their magnitude class (up to 2^36): few scanlines, long flat edges
+      const int64_t room = std::max<int64_t>(Mmax, magexp <= 30 ? ((int64_t)1 << 36) : Mmax);
+      if (mx > 0 && mx <= room / k) { for (auto* pp : { &sc.subj, &sc.clip }) for (auto& p : *pp) for (auto& pt : p) pt.x *= k; sc.squash = (int)k; }
+      else if (magexp >= 20) { // no room to stretch: squeeze y instead (keeps the magnitude)
         for (auto* pp : { &sc.subj, &sc.clip }) for (auto& p : *pp) { for (auto& pt : p) pt.y /= k; strip_dups_closed(p); }
         sc.squash = -(int)k;
       }
